@@ -43,7 +43,7 @@ build() {
   local h bin
   h=$(src_hash "$race")
   bin="$CACHE/harness-$h.test"
-  if [ -x "$bin" ]; then echo "$bin"; return 0; fi
+  if [ -x "$bin" ]; then touch "$bin" 2>/dev/null; echo "$bin"; return 0; fi
   local rewriter
   rewriter=$(build_rewriter) || exit 2
   local S
@@ -67,8 +67,9 @@ build() {
   if [ -n "$race" ]; then flags+=(-race); pkg=./race; fi
   (cd "$ROOT/worlds" && "$GO" test -c -modfile="$S/worlds.mod" "${flags[@]}" -o "$bin.tmp" "$pkg") >&2 || die2 "the harness does not build against $REPO's working tree (tooling trouble, not a violation)"
   mv "$bin.tmp" "$bin"
-  # keep the cache small: drop binaries older than the newest 6
-  ls -t "$CACHE"/harness-*.test 2>/dev/null | tail -n +7 | xargs -r rm -f
+  # keep the cache small: drop binaries that have not been built or used for three hours (never a
+  # recent one: several checks may be running from different builds at the same time)
+  find "$CACHE" -maxdepth 1 -name 'harness-*.test' -mmin +180 -delete 2>/dev/null
   echo "$bin"
 }
 
